@@ -54,6 +54,15 @@ struct Rec
         drv::hex_append(log, drv::bits_of(v), sizeof(typename T::value_type));
         log += '\n';
     }
+    // constants are plain values; a visitor is never handed one (constants are not visited), but if it happens the event
+    // is logged so that the mismatch is reported as such instead of as a compile error of the recorder
+    template<typename T>
+    typename std::enable_if<std::is_arithmetic<T>::value>::type value(T v, bool&)
+    {
+        log += " =plain:";
+        drv::hex_append(log, drv::raw_bits(v), sizeof(T));
+        log += '\n';
+    }
     template<typename T>
     typename std::enable_if<sbepp::is_enum<T>::value>::type value(T v, bool&)
     {
